@@ -362,6 +362,10 @@ class TCPPacketGenerator(Device, OutMixIn):
             self.cwnd_avaialbe.put(True)
 
     def resend_packet(self, seqno: int):
+        if seqno not in self.sent_packets:
+            # nothing outstanding at this sequence number (duplicate ACKs of
+            # data that is already fully acknowledged, or not yet sent)
+            return
         resent_pkt = self.sent_packets[seqno]
         resent_pkt.time = self.env.now
         self.dprint(
